@@ -175,10 +175,9 @@ func TestC07(t *testing.T) {
 						c.Dst.L = Layout{Root: "rm"}
 					}
 					if inF17(c) {
-						rec.Class("excluded:F17")
-						c.Mode = "reuse"
-						c.Dst = genDst(rt, shape, d, "dst3")
-						c.Dst.L = Layout{Root: "rm"}
+						// known finding F17 (operand a is clobbered): the delivered values are still checked,
+						// the "operand a unchanged" assertion is dropped inside the region (see EWCase.Run)
+						rec.Class("excluded:F17(operand-unchanged assertion only)")
 					}
 					return c
 				})
